@@ -76,7 +76,7 @@ def main():
     auto = dict(auto, **extra)
     # the Parser-method entries: a parser as Parser::with_start_offset builds it, patterns and remainders from a small
     # alphabet so that matches, misses, multi-byte characters, whitespace, digits and bool words all occur
-    pent = {k: v for k, v in m.REPLAY.items() if k.startswith("Parser.") and v[0] and v[0][0] in ("parser", "parser_any")}
+    pent = {k: v for k, v in m.REPLAY.items() if (k.startswith("Parser.") or k.startswith("ParseError.")) and v[0] and v[0][0] in ("parser", "parser_any")}
     PIECES = ["a", "b", "ab", ",", " ", "\t", "é", "→", "12", "7", "-", "-3", "255", "256", "true", "false", "tru", "x", "99999999999999999999", "\u2003"]
 
     def ustr(k=None):
@@ -90,7 +90,7 @@ def main():
                 f"{off}, str := {ustr()} }}")
     for name, ent in sorted(pent.items()):
         for j in range(n * 3):
-            args = [parser() if k in ("parser", "parser_any") else ustr(rnd.choice([0, 1, 1, 2])) if k == "str" else str(rnd.choice([0, 1, 2, 3, 5, 100, 2**64 - 1])) for k in ent[0]]
+            args = [parser() if k in ("parser", "parser_any") else ustr(rnd.choice([0, 1, 1, 2])) if k == "str" else rnd.choice(["Extracted.ErrorKind.Strip", "Extracted.ErrorKind.Find", "Extracted.ErrorKind.ParseInteger", "Extracted.ErrorKind.Other"]) if k == "errkind" else str(rnd.choice([0, 1, 2, 3, 5, 100, 2**64 - 1])) for k in ent[0]]
             cex.append({"fn": name, "args": args, "new": "?", "old": "?"})
     auto = dict(auto, **pent)
     rep = xsearch.replay_on_implementation(cex, os.path.join(core.BUILD, "selftest_cmp_replays"))
